@@ -37,6 +37,34 @@ def build(U):
     f2.body_start("    proof { lemma_btoi_minus1(); }")
     U.add_fn(f1)
     U.add_fn(f2)
+    # ---- on-demand pull path: the RESTORE command is [RESTORE, key, converted ttl, payload] (gen_restore_resp, migration_backend.rs)
+    from units import broker_common
+    R = U.src('src/protocol/resp.rs')
+    for n in ('BulkStr', 'Array', 'Resp'):
+        U.add(broker_common.strip(R.item('enum', n)) + '\n')
+    U.add('pub type BinSafeStr = Vec<u8>;\npub type RespVec = Resp<BinSafeStr>;\n'
+          '#[verifier::external_body] fn shim_slice_to_vec(s: &[u8]) -> (r: Vec<u8>) ensures r@ == s@ { s.into() }\n'
+          'pub open spec fn is_bulk_of(r: RespVec, b: Seq<u8>) -> bool { r matches Resp::Bulk(BulkStr::Str(x)) && x@ == b }\n')
+    M = U.src('src/proxy/migration_backend.rs')
+    g = M.fn('gen_restore_resp')
+    lits = {}
+    def lit(m):
+        bs = m.group(1).encode()
+        nm = 'lit_vec_' + ''.join('%02x' % b for b in bs)
+        lits[nm] = bs
+        return nm + '()'
+    g.text, n = re.subn(r'"([A-Za-z]+)"\.to_string\(\)\.into_bytes\(\)', lit, g.text)
+    if n != 1: g._lost('R11c: one "LIT".to_string().into_bytes()')
+    U.log.rule('R11c', g, '%d string literal -> byte vector constant' % n)
+    g.replace('R-into', 'key.into()', 'shim_slice_to_vec(key)', count=1)
+    for nm, bs in lits.items():
+        q = ', '.join('%du8' % b for b in bs)
+        U.add("#[verifier::external_body] fn %s() -> (r: Vec<u8>) ensures r@ == seq![%s] { unimplemented!() }\n" % (nm, q))
+    name_bytes = ', '.join('%du8' % b for b in b'RESTORE')
+    g.header('''fn gen_restore_resp(key: &[u8], raw_data: BinSafeStr, pttl: BinSafeStr) -> (r: RespVec)
+    ensures r matches Resp::Arr(Array::Arr(v)) && v@.len() == 4 && is_bulk_of(v@[0], seq![%s]) && is_bulk_of(v@[1], key@) && is_bulk_of(v@[3], raw_data@)
+        && (v@[2] matches Resp::Bulk(BulkStr::Str(t)) && spec_restore_ttl_ok(pttl@, t@))''' % name_bytes)
+    U.add_fn(g)
     U.add("} // verus!\nfn main() {}\n")
     # call-site scan (declared as a scan, not a proof): the only producer of RESTORE's ttl argument is
     # pttl_to_restore_expire_time and "key not found" replies are filtered before it is called
